@@ -295,8 +295,8 @@ void do_join(World& w, int thread) {
 }
 
 const std::vector<std::string> kStallPoints = {
-    "eq:empty_before_reset", "eq:empty_before_reset", "eq:empty_before_reset", "eq:pushed_before_signal",
-    "eq:pushed_before_signal", "eq:launch_refused", "bq:push_ticket", "cb:eq_item_assign", "cb:eq_consume",
+    "eq:empty_before_cas", "eq:empty_before_cas", "eq:empty_before_cas", "eq:pushed_before_signal",
+    "eq:pushed_before_signal", "eq:submit_failed", "eq:launching", "bq:push_ticket", "cb:eq_item_assign", "cb:eq_consume",
     "cb:flaky_invoke"};
 
 struct Totals {
